@@ -378,3 +378,7 @@ func extStores(m *u.MapPollard) {
 	m.CachedLeaves.ForEach(func(k u.Hash, v uint64) error { l.m[k] = v; return nil })
 	m.Nodes, m.CachedLeaves = n, l
 }
+
+func (a *arena) proofTH(t []uint64, h []Hash) u.Proof {
+	return u.Proof{Targets: a.u64s(t), Proof: a.hashes(h)}
+}
